@@ -236,6 +236,9 @@ type graphCase struct {
 	Ops  []gOp
 	Pool int
 	Kind string
+	// Readers > 0: the ops run on one task while Readers other tasks call the
+	// read-side queries (TopologicalSort, DetectCycles, GetDependents, ...) concurrently
+	Readers int
 }
 
 func (c *graphCase) Describe() map[string]any {
@@ -243,7 +246,7 @@ func (c *graphCase) Describe() map[string]any {
 	for _, o := range c.Ops {
 		s = append(s, o.String())
 	}
-	return map[string]any{"engine": "graph-sim", "kind": c.Kind, "pool_size": c.Pool, "ops": s}
+	return map[string]any{"engine": "graph-sim", "kind": c.Kind, "pool_size": c.Pool, "ops": s, "concurrent_reader_tasks": c.Readers}
 }
 
 // number of systematic digraph cases per tier
@@ -269,6 +272,10 @@ func decodeGraphCase(tier string, idx int, tape *Tape) *graphCase {
 		return digraphCase(n, code, tape)
 	}
 	c := &graphCase{Kind: "sequence"}
+	if tape.Choose(StCfg, 5) == 0 {
+		c.Kind = "sequence-concurrent"
+		c.Readers = 1 + tape.Choose(StCfg, 2)
+	}
 	c.Pool = 3 + tape.Choose(StCfg, 4) // 3..6
 	if tape.Choose(StCfg, 8) == 0 {
 		c.Pool = 6 + tape.Choose(StCfg, 7) // up to 12
@@ -344,9 +351,29 @@ func (e *graphEngine) exec(c *graphCase, tape *Tape) *RunOut {
 	out := &RunOut{Faults: map[string]int{}, Reach: map[string]int{}}
 	var vs []Violation
 	sim := simrt.New(simrt.Config{Draw: func(stream, n int) int { return tape.Choose(StSched+stream, n) }})
+	var shared *simgraph.Graph
+	var sharedReady, writerDone bool
+	if c.Readers > 0 {
+		shared = simgraph.New()
+		sharedReady = true
+	}
 	sim.AddClient("graph", nil, func(t *simrt.Task) {
-		vs = runGraphCase(c, out)
+		vs = runGraphCaseOn(c, out, shared)
+		writerDone = true
 	})
+	for r := 0; r < c.Readers; r++ {
+		sim.AddClient(fmt.Sprintf("reader%d", r), nil, func(t *simrt.Task) {
+			for i := 0; i < 40 && sharedReady && !writerDone; i++ {
+				simrt.BeginOp()
+				shared.TopologicalSort()
+				shared.GetRoots()
+				shared.Size()
+				k := gPool[i%c.Pool]
+				shared.GetDependents(k.T.RT(), k.Key, k.Group)
+				shared.GetTransitiveDependencies(k.T.RT(), k.Key, k.Group)
+			}
+		})
+	}
 	v := sim.Run()
 	for _, t := range sim.Tasks() {
 		if t.Panic != nil {
@@ -370,12 +397,20 @@ func (e *graphEngine) exec(c *graphCase, tape *Tape) *RunOut {
 	return out
 }
 
-func runGraphCase(c *graphCase, out *RunOut) []Violation {
+func runGraphCase(c *graphCase, out *RunOut) []Violation { return runGraphCaseOn(c, out, nil) }
+
+// runGraphCaseOn runs the mutation/query sequence; g0 != nil is a graph shared
+// with concurrent reader tasks (then CalculateDepths / DetectCycles, which write
+// node fields, are still only called from this task).
+func runGraphCaseOn(c *graphCase, out *RunOut, g0 *simgraph.Graph) []Violation {
 	var vs []Violation
 	add := func(prop, rule, shape, f string, a ...any) {
 		vs = append(vs, Violation{Prop: prop, Rule: rule, Shape: shape, Msg: fmt.Sprintf(f, a...)})
 	}
-	g := simgraph.New()
+	g := g0
+	if g == nil {
+		g = simgraph.New()
+	}
 	ref := newRef()
 	idxOf := map[simgraph.NodeKey]int{}
 	for i := 0; i < c.Pool; i++ {
@@ -446,6 +481,8 @@ func runGraphCase(c *graphCase, out *RunOut) []Violation {
 				gotSet[idxOf[x]] = true
 			}
 			wantSet := ref.trans(i)
+			delete(wantSet, i) // a node on a cycle reaches itself; whether it lists itself is not prescribed
+			delete(gotSet, i)
 			if !reflect.DeepEqual(gotSet, wantSet) && !(len(gotSet) == 0 && len(wantSet) == 0) {
 				add("C19", "C19.transitive", "transitive", "%s: GetTransitiveDependencies(%s)=%v, reference %v", when, k, keysB(gotSet), keysB(wantSet))
 			}
@@ -606,6 +643,12 @@ func runGraphCase(c *graphCase, out *RunOut) []Violation {
 					add("C05", "C05.graph.verdict", "cycle-cache", "step %d: second DetectCycles() on a cyclic graph returned nil", step)
 				} else {
 					checkGraphPath(err2, ref, idxOf, when+" (cached)", add)
+				}
+				// the deferred adds were completed by the cycle check: every query that is
+				// meaningful on a cyclic graph must already agree with the reference
+				queries(when + " (cyclic state)")
+				if len(vs) > 0 {
+					return vs
 				}
 				g.Clear()
 				ref = newRef()
